@@ -116,6 +116,7 @@ def run(ctx, rep):
             rep.ob("include-atoms", "conjunction", sk.count("&&") == 2 and "||" not in sk, "the three atoms are joined by && only", b["file"], arm["l"])
     # ---- header fields are filled from the matching layout quantities ------------------------------------------------
     header_fields(ctx, rep, F, P)
+    dynamic_table(ctx, rep, F)
     rep.assume("addresses, offsets, sizes: runtime quantities, not decided")
 
 
@@ -203,3 +204,58 @@ def header_fields(ctx, rep, F, P):
                         got[fld[-1][1:]] = st["rv"]["a"][1].get("val")
         for k, v in want.items():
             rep.ob("header-fields", f"e_ident.{k}", got.get(k) == v, f"e_ident.{k} = {got.get(k)} (ELFCLASS64=2, ELFDATA2LSB=1, EV_CURRENT=1)", ph.file, ph.line)
+
+
+def dynamic_table(ctx, rep, F):
+    """The fixed part of .dynamic is a constant table of (tag, presence condition, value). Each row is compared with the gABI oracle:
+    address tags hold vma_of_section(S), size tags the size of the *same* S, optional rows are conditioned on S, no tag twice, DT_NULL last."""
+    import os, sys
+    sys.path.insert(0, os.path.join(os.path.dirname(os.path.dirname(os.path.abspath(__file__))), "oracles"))
+    import dynamic_tags as O
+    rep.rule("dynamic-table", "every row of EPILOGUE_DYNAMIC_ENTRY_WRITERS pairs its tag with the section/quantity the gABI assigns to it; address/size pairs name the same section; optional rows are conditioned on that section; tags are unique and DT_NULL terminates the table")
+    h = F.hir_body("libwild::elf_writer::EPILOGUE_DYNAMIC_ENTRY_WRITERS")
+    if h is None:
+        rep.lost("dynamic-table", "elf_writer::EPILOGUE_DYNAMIC_ENTRY_WRITERS")
+        return
+    rows = []
+    for x in fold.walk(h["body"]):
+        if x.get("e") == "call" and x["f"].get("e") == "path" and (x["f"].get("def") or "").endswith(("DynamicEntryWriter::optional", "DynamicEntryWriter::new")):
+            args = [hirq.skeleton(a, lambda n: None).replace("local:", "") for a in x["args"]]
+            rows.append((args, x.get("l")))
+    rep.floor("dynamic-table", "rows", len(rows), 40)
+    seen = []
+    for args, line in rows:
+        tag = args[0]
+        cond = args[1] if len(args) == 3 else None
+        val = args[-1]
+        seen.append(tag)
+        spec = O.TAGS.get(tag)
+        if spec is None:
+            rep.ob("dynamic-table", f"{tag}:known", False, f"tag {tag} has no oracle row", h["file"], line)
+            continue
+        kind, what = spec
+        if kind == "addr":
+            ok = f"vma_of_section({what})" in val and "size_of_section" not in val
+            detail = f"{tag} = {val} (must be the address of {what})"
+        elif kind == "size":
+            parts = what.split("+")
+            ok = all((f"size_of_section({p_})" in val) or (f"get({p_}).mem_size" in val) for p_ in parts) and "vma_of_section" not in val
+            detail = f"{tag} = {val} (must be the size of {what})"
+        elif kind == "count":
+            ok = f"get({what}).mem_size" in val and "/" in val
+            detail = f"{tag} = {val} (must be the number of entries of {what})"
+        else:
+            ok = what in val
+            detail = f"{tag} = {val} (expected {what})"
+        rep.ob("dynamic-table", f"{tag}:value", ok, detail, h["file"], line)
+        if cond is not None and kind in ("addr", "size") and tag not in ("DT_PLTGOT", "DT_RELA", "DT_RELASZ"):
+            sec = what.split("+")[0]
+            rep.ob("dynamic-table", f"{tag}:condition", f"({sec})" in cond, f"present when {cond} (must test {sec})", h["file"], line)
+        if tag in O.FLAG_BITS:
+            rep.ob("dynamic-table", f"{tag}:condition", O.FLAG_BITS[tag] in (cond or ""), f"present when {cond} (must test {O.FLAG_BITS[tag]})", h["file"], line)
+    dup = sorted({t for t in seen if seen.count(t) > 1})
+    rep.ob("dynamic-table", "unique-tags", not dup, f"duplicate tags: {dup}", h["file"], h["line"])
+    rep.ob("dynamic-table", "null-last", bool(seen) and seen[-1] == "DT_NULL" and seen.count("DT_NULL") == 1, f"last row is {seen[-1] if seen else None}", h["file"], h["line"])
+    for a, b in (("DT_INIT_ARRAY", "DT_INIT_ARRAYSZ"), ("DT_FINI_ARRAY", "DT_FINI_ARRAYSZ"), ("DT_PREINIT_ARRAY", "DT_PREINIT_ARRAYSZ"), ("DT_STRTAB", "DT_STRSZ"),
+                 ("DT_JMPREL", "DT_PLTRELSZ"), ("DT_RELA", "DT_RELASZ"), ("DT_RELR", "DT_RELRSZ")):
+        rep.ob("dynamic-table", f"pair:{a}", a in seen and b in seen, f"{a} and {b} are both present in the table", h["file"], h["line"])
